@@ -239,10 +239,12 @@ class Engine:
             'gep': s.i_gep, 'alloca': s.i_alloca, 'br': s.i_br, 'condbr': s.i_condbr, 'switch': s.i_switch, 'phi': s.i_phi,
             'select': s.i_select, 'call': s.i_call, 'ret': s.i_ret, 'resume': s.i_resume, 'landingpad': s.i_landingpad,
             'extractvalue': s.i_extractvalue, 'insertvalue': s.i_insertvalue, 'freeze': s.i_freeze, 'nop': s.i_nop,
-            'unreachable': s.i_unreachable, 'fneg': s.i_fneg,
+            'unreachable': s.i_unreachable, 'fneg': s.i_fneg, 'unsupported': s.i_unsupported,
         }
         s.work = None
         s.init_state = None
+        from . import externs as _ext
+        s.intercepted = set(n for n in mod.funcs if _ext.intercepts(n))
         s.tls_teardown = False
 
     # ------------------------------------------------------------------ solver
@@ -1166,6 +1168,9 @@ class Engine:
         fr.loc[ins[1]] = -v if isinstance(v, float) else z3.fpNeg(v)
         fr.idx += 1
 
+    def i_unsupported(s, st, fr, ins):
+        raise Unsupported("reached an instruction the engine does not model in %s: %s" % (demangle(fr.fn.name), ins[1]))
+
     def i_unreachable(s, st, fr, ins):
         raise Violation('unreachable', "reached 'unreachable' in " + demangle(fr.fn.name))
 
@@ -1513,7 +1518,7 @@ class Engine:
         name = cv.name
         av = [s.val(st, fr, a) if a is not None else None for t, a in args]
         f = s.mod.funcs.get(name)
-        if f is not None:
+        if f is not None and name not in s.intercepted:
             s.push_call(st, f, av, ins)
             return
         r = s.extern(st, fr, name, av, ins)
